@@ -184,7 +184,7 @@ def chain(sym, N, names):
 BOUNDS = {
     'quick': 'every catalogue entry: construction reads no data row from any input (source n in [0,3] rows, with/without 3 more '
              'rows); streaming entries: k in [0,n+2] output rows pull at most (rows needed by definition for those outputs + the '
-             'catalogued look-ahead) per source iterator, with 1 symbolic key cell; display functions with limit in [1,4] over up '
+             'catalogued look-ahead) per source iterator - as a sum over the iterators and for each single iterator -, with 1 symbolic key cell; display functions with limit in [1,4] over up '
              'to 8 rows; 6 chains of 3-4 streaming operators',
     'thorough': 'n in [0,5], 2 symbolic cells; all ordered pairs of the 18 chainable operators',
 }
